@@ -17,11 +17,21 @@ Eea(key, count, bearer, dir, len, msg) == EeaK(msg, KeyStream(key, EeaIV(count, 
 BitOf(m, b) == IF (b % 32) < 16 THEN (m[(b \div 32) + 1][1] \div (2^(15-(b % 32)))) % 2 ELSE (m[(b \div 32) + 1][2] \div (2^(31-(b % 32)))) % 2
 ZAt2(a, b, r) == IF r = 0 THEN a ELSE WOr(WShl(a, r), WShr(b, 32 - r))
 ZAt(ks, b) == ZAt2(ks[(b \div 32) + 1], IF (b % 32) = 0 THEN <<0,0>> ELSE ks[(b \div 32) + 2], b % 32)
-RECURSIVE EiaAccG(_,_,_,_,_)
+\* Three levels of bounded recursion -- 64 bits, 64 chunks, then groups of 4096 bits -- keep the evaluation stack shallow for any LENGTH.
+\* TLC passes operator arguments unevaluated: an accumulator that is only handed on builds a chain of suspended computations as long as the
+\* message, evaluated all at once at the end (deep Java recursion).  Each level therefore LOOKS at its accumulator (Seen(t), always true),
+\* which forces it there and then.
+RECURSIVE EiaAccG(_,_,_,_,_,_)
+RECURSIVE EiaAccH(_,_,_,_,_)
 RECURSIVE EiaAcc(_,_,_,_,_)
-EiaAcc(m, ks, b, to, t) == IF b > to THEN t ELSE EiaAcc(m, ks, b+1, to, IF BitOf(m, b) = 1 THEN WXor(t, ZAt(ks, b)) ELSE t)
-EiaAccG(m, ks, g, len, t) == IF g*64 >= len THEN t ELSE EiaAccG(m, ks, g+1, len, EiaAcc(m, ks, g*64, IF g*64+63 < len-1 THEN g*64+63 ELSE len-1, t))
-EiaK(m, ks, len) == WXor(WXor(EiaAccG(m, ks, 0, len, <<0,0>>), ZAt(ks, len)), ks[NW(len) + 2])
+Min2(a, b) == IF a < b THEN a ELSE b
+Seen(t) == t[1] >= 0
+EiaAcc(m, ks, b, to, t) == IF Seen(t) /\ b > to THEN t ELSE EiaAcc(m, ks, b+1, to, IF BitOf(m, b) = 1 THEN WXor(t, ZAt(ks, b)) ELSE t)
+\* chunks g .. gto-1 of 64 bits each
+EiaAccG(m, ks, g, gto, len, t) == IF Seen(t) /\ (g >= gto \/ g*64 >= len) THEN t ELSE EiaAccG(m, ks, g+1, gto, len, EiaAcc(m, ks, g*64, Min2(g*64+63, len-1), t))
+\* groups h, h+1, ... of 64 chunks each
+EiaAccH(m, ks, h, len, t) == IF Seen(t) /\ h*4096 >= len THEN t ELSE EiaAccH(m, ks, h+1, len, EiaAccG(m, ks, h*64, h*64+64, len, t))
+EiaK(m, ks, len) == WXor(WXor(EiaAccH(m, ks, 0, len, <<0,0>>), ZAt(ks, len)), ks[NW(len) + 2])
 Eia(key, count, bearer, dir, len, msg) == EiaK(msg, KeyStream(key, EiaIV(count, bearer, dir), NW(len) + 2), len)
 \* ---- anchors: 3GPP test sets ----
 CK1 == <<\h17,\h3d,\h14,\hba,\h50,\h03,\h73,\h1d,\h7a,\h60,\h04,\h94,\h70,\hf0,\h0a,\h29>>
